@@ -120,6 +120,40 @@ def check_case(drv, rng, r, stats):
                 break
         if list(Xvt.index) != list(Xv.index):
             fail(f"output index differs from the input index ({name})")
+    # (c') the same on new frames (values inside / outside the training range, unseen categories - also values that
+    # another feature of the object knows -, missing values): a row's label depends on that row only
+    from . import c05
+    for mode in ("inside", "unseen", "mixed"):
+        try:
+            Xn = c05.probe_frame(rng, obj, X, mode)
+        except Exception:
+            continue
+        m = len(Xn)
+        if m == 0:
+            continue
+        f2, outn, en, mn, Xnt = fitgen.compare_transform(drv, obj, Xn, f" (new frame '{mode}')")
+        fails += f2
+        stats["variants"] += 1
+        if en is not None:
+            continue
+        fulln = cells(Xnt)
+        for name in ("subset", "permutation", "single-rows"):
+            rows_sets = [sorted(rng.sample(range(m), rng.randint(1, m)))] if name == "subset" else \
+                [rng.sample(range(m), m)] if name == "permutation" else [[i] for i in rng.sample(range(m), min(m, 3))]
+            for rows in rows_sets:
+                Xv = Xn.iloc[rows].copy()
+                _, e3, m3, Xvt = fitgen.run_transform(obj, Xv)
+                stats["variants"] += 1
+                if e3 is not None:
+                    fail(f"a {name} of an accepted new frame ('{mode}') is rejected: {e3}", error=(m3 or "")[:200], rows=rows[:10])
+                    continue
+                got = cells(Xvt)
+                for k in fulln:
+                    if k in got and got[k] != [fulln[k][i] for i in rows]:
+                        bad = [j for j, i in enumerate(rows) if got[k][j] != fulln[k][i]][:5]
+                        fail(f"row-wise purity broken on a new frame ('{mode}'): {name} gives other labels than the full frame", column=k,
+                             rows=[rows[j] for j in bad], got=[got[k][j] for j in bad], full=[fulln[k][rows[j]] for j in bad])
+                        break
     # (d) fitted state unchanged by all these transforms
     if state_sig(obj) != sig0:
         fail("transform altered the fitted state (to_json / labels_per_values)")
